@@ -350,7 +350,7 @@ def one_case(chk: Check, which: str, cap: int, kind: str, ops, case_seed: int):
 
 def run(chk: Check) -> None:
     rng = chk.rng
-    n_cases = 60 if chk.tier == "quick" else 700
+    n_cases = 300 if chk.tier == "quick" else 2500
     chk.rule = ("random op sequences (add with widths biased to end exactly at / run across the end of the "
                 "storage, sample, len, dump, clear) on ReplayBuffer and MultiAgentReplayBuffer, capacities 1..17, "
                 "five observation kinds; distinct = distinct (buffer, capacity, kind, op list); non-trivial = at "
